@@ -24,6 +24,7 @@ package osutil
 //@   props C06
 //@   guard call os.Rename: [data-synced-first] snapdUnsafeIO || called("(*os.File).Sync")
 //@   guard call os.Rename: [closed-first] called("(*AtomicFile).Close")
+//@   guard call os.Rename: [sync-succeeded] snapdUnsafeIO || fileSyncErr(aw.File) == nil
 //@   guard call os.Rename: [temp-over-target] arg0 == aw.tmpname && arg1 == aw.target
 //@   guard call (*os.File).Sync: [which] (called("os.Rename") && arg0 == dir) || (!called("os.Rename") && arg0 == aw.File)
 //@   guard call os.Open: [dir-opened-before-rename] !called("os.Rename")
